@@ -188,11 +188,56 @@ func addrConfined(v ssa.Value, root *ssa.Alloc) bool {
 				return false
 			}
 		case *ssa.DebugRef:
+		case *ssa.MakeClosure:
+			// captured by a closure that only reads it: still confined
+			cf, _ := x.Fn.(*ssa.Function)
+			if cf == nil || v != ssa.Value(root) {
+				return false
+			}
+			for i, bnd := range x.Bindings {
+				if bnd == v && i < len(cf.FreeVars) && !readOnlyFreeVar(cf, cf.FreeVars[i]) {
+					return false
+				}
+			}
 		default:
 			return false
 		}
 	}
 	return true
+}
+
+// readOnlyFreeVar: the closure never stores through the captured variable and does not pass its
+// address on.
+func readOnlyFreeVar(cf *ssa.Function, fv *ssa.FreeVar) bool {
+	var ok func(v ssa.Value) bool
+	ok = func(v ssa.Value) bool {
+		refs := v.Referrers()
+		if refs == nil {
+			return true
+		}
+		for _, r := range *refs {
+			switch x := r.(type) {
+			case *ssa.FieldAddr:
+				if !ok(x) {
+					return false
+				}
+			case *ssa.IndexAddr:
+				// indexing the loaded slice happens on the loaded value, not on the address
+				return false
+			case *ssa.UnOp:
+				if x.Op != token.MUL {
+					return false
+				}
+			case *ssa.Store:
+				return false
+			case *ssa.DebugRef:
+			default:
+				return false
+			}
+		}
+		return true
+	}
+	return ok(fv)
 }
 
 // allocPath decomposes an address into (tracked alloc, field index path).
